@@ -747,3 +747,7 @@ Proof.
   - exists [92; 101; 91; 49; 109]. eexists. split; [vm_compute; reflexivity | discriminate].
   - exists bold_only. eexists. split; [discriminate | split; [vm_compute; reflexivity | discriminate]].
 Qed.
+
+(* the sequence that closes styled text is SGR 0, the parameter from_raw ignores (reset) *)
+Lemma reset_is_sgr0 : reset_params = [p_reset] /\ classify p_reset = ANop.
+Proof. split; reflexivity. Qed.
